@@ -218,6 +218,14 @@ end QJ
 
 def handleQuery (op : String) (j : Json) : Except String Json := do
   match op with
+  | "date.validShortAll" =>
+    -- every six-digit string the model reads as a date (YYMMDD = 20YY-MM-DD), in increasing order
+    let pad2 (n : Nat) : String := if n < 10 then s!"0{n}" else s!"{n}"
+    let all := (List.range 100).flatMap (fun y => (List.range 100).flatMap (fun m => (List.range 100).map (fun d => pad2 y ++ pad2 m ++ pad2 d)))
+    pure (Json.mkObj [("valid", Json.arr ((all.filter (fun s => (Date.parseShort s.toList).isSome)).map Json.str).toArray)])
+  | "date.validLong" =>
+    let xs ← strsOf j "dates"
+    pure (Json.mkObj [("valid", Json.arr ((xs.map (fun s => Json.bool (Date.parseLong s.toList).isSome))).toArray)])
   | "query.parse" =>
     let txt ← strOf j "text"
     let today ← dateOf j "today"
@@ -506,7 +514,7 @@ def handle (line : String) : Json :=
         else if op.startsWith "rename." then handleRename op j
         else if op.startsWith "template." then handleTemplate op j
         else if op.startsWith "lex." then handleLex op j
-        else if op.startsWith "query." then handleQuery op j
+        else if op.startsWith "query." || op.startsWith "date." then handleQuery op j
         else if op.startsWith "filter." then handleFilter op j
         else if op.startsWith "exec." then handleExec op j
         else if op.startsWith "saved." then handleSaved op j
